@@ -41,7 +41,12 @@ def check_run_order(ctx, R="C12.order"):
     scen = fn.args.args[1].arg
     # local variables are identified by what they are bound to, never by their names
     reason = lib.local_from(fn, f"{scen}._step()", what="termination reason")
-    sched = lib.local_from(fn, "self.scheduleForAgents()", what="schedule")
+    try:
+        sched = lib.local_from(fn, "self.scheduleForAgents()", what="schedule")
+    except AnalysisError:
+        if not any(isinstance(c, ast.Call) and unparse(c) == "self.scheduleForAgents()" for c in ast.walk(fn)):
+            raise
+        sched = "self.scheduleForAgents()"  # iterated in place
     landmarks = [
         ("scenario step", _call(f"{scen}._step")),
         ("record current state", _call("self.recordCurrentState")),
@@ -151,7 +156,7 @@ def check_scenario_step(ctx, R="C12.scenario"):
         ("time limit", lambda n: isinstance(n, ast.If) and "self._timeLimitInSteps" in unparse(n.test) and any(isinstance(x, ast.Return) for x in n.body)),
         ("elapsed increment", lambda n: isinstance(n, ast.AugAssign) and unparse(n.target) == "self._elapsedTime"),
         ("compose block", lambda n: isinstance(n, ast.Call) and unparse(n.func) == "self._runningIterator.send"),
-        ("end with behaviours", lambda n: isinstance(n, ast.If) and unparse(n.test) == "self._endWithBehaviors"),
+        ("end with behaviours", lambda n: isinstance(n, ast.If) and any(p_ and unparse(t_) == "self._endWithBehaviors" for t_, p_ in lib.flatten_conditions([(n.test, True)]))),
         ("termination conditions", lambda n: isinstance(n, ast.For) and unparse(n.iter) == "self._terminationConditions"),
     ]
     idx = []
@@ -242,7 +247,12 @@ def check_once_per_step(ctx, R="C12.logs"):
         ctx.ok(R, loop.body[acts[0]], "one action-log entry per executed step, after all termination returns")
     else:
         ctx.finding(R, loop, "actionSequence placement", "the action log is not appended (with the very actions handed to executeActions) exactly once per iteration after the termination tests")
-    svar = lib.local_from(fn, "self.scheduleForAgents()", what="schedule")
+    try:
+        svar = lib.local_from(fn, "self.scheduleForAgents()", what="schedule")
+    except AnalysisError:
+        if not any(isinstance(c, ast.Call) and unparse(c) == "self.scheduleForAgents()" for c in ast.walk(fn)):
+            raise
+        svar = "self.scheduleForAgents()"  # used in place (then nothing can check it against the agents)
     sched = [s for s in loop.body if isinstance(s, ast.For) and unparse(s.iter) == svar]
     if sched and isinstance(sched[0].target, ast.Name):
         v = sched[0].target.id
